@@ -29,7 +29,7 @@ type cmdResult struct {
 }
 
 func runTool(bin string, stdin []byte, args ...string) cmdResult {
-	cmd := exec.Command(bin, args...)
+	cmd := pinnedCommand(bin, args...)
 	var so, se bytes.Buffer
 	cmd.Stdout, cmd.Stderr = &so, &se
 	if stdin != nil {
